@@ -9,18 +9,27 @@ LEVEL = "exploration"
 RULE = ("Hypothesis-generated histories of 1-4 reaction steps (cellgen.py): each step reacts an initial solution, the product of "
         "the previous step or a MIX of 2-3 solutions (fractions 0.05-1.5, occasionally negative) with a subset of REACTION "
         "(formulas/phase names, lists or 'in n steps', mol/mmol/umol), EQUILIBRIUM_PHASES (1-4, targets, amounts incl. 0, "
-        "dissolve_only/precipitate_only, alternative formula), EXCHANGE (explicit/-equilibrate), SURFACE (no_edl, DDL, "
-        "-donnan, -diffuse_layer, only_counter_ions), GAS_PHASE (fixed P / fixed V), SOLID_SOLUTIONS (ideal, binary "
-        "Guggenheim), KINETICS (5 rate laws with -formula, cvode/RK), newly defined or carried over through SAVE/COPY, "
-        "INCREMENTAL_REACTIONS on/off, batch or RUN_CELLS, optional REACTION_TEMPERATURE; inventories before/after are "
-        "computed from DUMP text with formulas from the database text. Non-trivial = >=2 reactant kinds besides the "
-        "solution and >=1 element moved between reservoirs by >1e-9 mol in some step; distinct by SHA-256 of the case")
+        "dissolve_only/precipitate_only, alternative formula), EXCHANGE (explicit incl. HX / -equilibrate), SURFACE (no_edl, DDL, "
+        "-donnan, -diffuse_layer, only_counter_ions; defined or equilibrated), GAS_PHASE (fixed P / fixed V), SOLID_SOLUTIONS "
+        "(ideal, binary Guggenheim), KINETICS (5 rate laws with -formula, cvode/RK), newly defined or carried over through "
+        "SAVE/COPY, INCREMENTAL_REACTIONS on/off, batch or RUN_CELLS, optional REACTION_TEMPERATURE; phreeqc.dat, wateq4f.dat, "
+        "pitzer.dat. Inventories before/after are computed from DUMP text with formulas from the database text; every element "
+        "(incl. H, O) and the net charge must close to 1e-6 of the system inventory (floor 1e-14 mol), and no phase / gas / "
+        "exchanger / kinetic amount may be negative. Non-trivial = a step with >=2 reactant kinds besides the solution in which "
+        ">=1 element moved between reservoirs by >1e-9 mol; distinct by SHA-256 of the case")
 ASSUMPTIONS = ["DUMP -all writes every stored reactant with >=14 significant digits (format precision 1e-14 << 1e-6)",
                "phase formula = first term of the left-hand side of its PHASES equation in the database text (manual)",
                "REACTION step semantics as in the manual (cumulative vs incremental; last amount re-used when another keyword "
                "defines more steps)",
                "REACTION / KINETICS formulas generated are electrically neutral (the engine does not track reactant charge)",
-               "charge scale for the relative tolerance = total moles of non-H/O elements in the cell (proxy for the ionic equivalents)"]
+               "charge scale for the relative tolerance = total moles of non-H/O elements in the cell (proxy for the ionic equivalents)",
+               "a SURFACE definition with an explicit constant-thickness diffuse layer that has never been used owns the diffuse-layer "
+               "water W_s = area x grams x thickness x 1000 kg (manual 1999, eq. 76) although its dump still shows -mass_water 0; this "
+               "water (2 H + 1 O per 18.016 g, weights from the database text) is counted in the inventory before the step",
+               "amounts below 1e-20 mol are the engine's representation of zero (MIN_TOTAL 1e-25, solid solutions 1e-27)",
+               "excluded by construction (counted in classes): KNOBS -iterations > 100 for cells with SOLID_SOLUTIONS + fixed-volume "
+               "GAS_PHASE (known finding: mass lost/created at the switch to numerical derivatives), CVODE for rates that overshoot "
+               "the reactant, kinetic uptake of substances not abundantly present in every solution (engine does not return)"]
 TECHNIQUE = "property-based testing (Hypothesis) with an independent inventory oracle over DUMP text"
 LEVEL_TEXT = ("Exploration: thousands of generated cell histories per run; for every step every element (incl. H, O) and the net "
               "charge are summed over all reservoirs of the before- and after-dumps and compared to 1e-6 relative; no amount negative.")
@@ -212,16 +221,23 @@ def check_case(case, ctx):
     def on_step(k, info, D0, D1, I):
         r = check_step(info, D0, D1, phases, gfw)
         r["kinds"] = info["kinds"]
+        r["nsteps"] = info["nsteps"]
         res.append(r)
 
     done = run_case(case, ctx, None, on_step)
     steps = case["steps"][:done]
     classes = ["db=" + case["db"], "hist=%d" % done]
+    if case.get("knobs_iterations") is None and G.ss_with_fixed_volume_gas(case):
+        classes.append("excluded_trigger:ss+fixed_volume_gas_runs_with_itmax_100")
     if done >= 2:
         classes.append("hist>=2")
     nt = False
     maxk = 0
     for stp, r in zip(steps, res):
+        if r["nsteps"] > 1:
+            classes.append("multi_step")
+            if stp["incr"]:
+                classes.append("multi_step_incremental")
         nk = len(r["kinds"])
         maxk = max(maxk, nk)
         if nk >= 2 and r["moved"]:
@@ -247,6 +263,20 @@ def check_case(case, ctx):
             classes.append("gas_fixed_" + s["gas"]["fixed"])
         if isinstance(s.get("pp"), dict) and any(p["alt"] for p in s["pp"]["phases"]):
             classes.append("pp_alt_formula")
+        if isinstance(s.get("exch"), dict):
+            classes.append("exch_equilibrate" if s["exch"]["equil"] is not None else "exch_explicit")
+            if s["exch"]["equil"] is None and any(nm == "HX" for nm, _ in s["exch"]["species"]):
+                classes.append("exch_HX")
+        if isinstance(s.get("surf"), dict):
+            classes.append("surf_equilibrate" if s["surf"]["equil"] is not None else "surf_defined")
+        if isinstance(s.get("ss"), dict) and any(x["nonideal"] for x in s["ss"]["sss"]):
+            classes.append("ss_nonideal")
+        if isinstance(s.get("kin"), dict):
+            classes.append("kin_cvode" if s["kin"]["cvode"] else "kin_rk")
+            if s["kin"].get("cvode_forced_off"):
+                classes.append("excluded_trigger:cvode_on_overshooting_rate")
+        if isinstance(s.get("reaction"), dict):
+            classes.append("reaction_list" if "list" in s["reaction"] else "reaction_in_n_steps")
     classes = sorted(set(classes))
     w = max([r["worst"] for r in res] or [0.0])
     if w > 1e-9:
